@@ -7,10 +7,13 @@ package main
 // observed so that the specification can judge them.
 
 import (
+	"fmt"
 	"math/rand"
 	"sync"
 	"time"
 
+	age "github.com/craterdog/go-collection-framework/v4/agent"
+	cdc "github.com/craterdog/go-collection-framework/v4/cdcn"
 	col "github.com/craterdog/go-collection-framework/v4/collection"
 )
 
@@ -171,5 +174,324 @@ func runC04stress(tier string, seed int64, out *Out) {
 			}
 		}
 		out.emit(runQueueStress(p))
+	}
+}
+
+// ---------------------------------------------------------------- C19
+
+// a family runs a deterministic script on instances it creates itself and returns a digest
+type family struct {
+	name string
+	run  func(id int) string
+}
+
+func digestInts(xs []int) string { return fmt.Sprint(xs) }
+
+func composite(id, n int) [][]int {
+	out := make([][]int, n)
+	for i := range out {
+		out[i] = []int{(id*7 + i*3) % 5, (id + i) % 3, i % 2}
+	}
+	return out
+}
+
+func scalars(id, n int) []int {
+	out := make([]int, n)
+	for i := range out {
+		out[i] = (id*31 + i*17) % 23
+	}
+	return out
+}
+
+func families() []family {
+	return []family{
+		{"build", func(id int) string {
+			l := col.List[int](notation).MakeFromArray(scalars(id, 20))
+			s := col.Set[int](notation).MakeFromSequence(l)
+			c := col.Catalog[int, int](notation).Make()
+			for i, v := range scalars(id, 12) {
+				c.SetValue(v, i)
+			}
+			st := col.Stack[int](notation).MakeFromSequence(s)
+			return digestInts(l.AsArray()) + digestInts(s.AsArray()) + digestInts(c.GetKeys().AsArray()) + digestInts(st.AsArray())
+		}},
+		{"mutate", func(id int) string {
+			l := col.List[int](notation).MakeFromArray(scalars(id, 10))
+			for i := 0; i < 30; i++ {
+				l.InsertValue(uint(i%l.GetSize()), i)
+				l.RemoveValue(1 + (i*3)%l.GetSize())
+				l.SetValue(1+i%l.GetSize(), id)
+			}
+			s := col.Set[int](notation).Make()
+			for _, v := range scalars(id, 40) {
+				s.AddValue(v)
+				s.RemoveValue(v / 2)
+			}
+			return digestInts(l.AsArray()) + digestInts(s.AsArray())
+		}},
+		{"search", func(id int) string {
+			l := col.List[[]int](notation).MakeFromArray(composite(id, 12))
+			n := 0
+			for _, v := range composite(id+1, 12) {
+				n = n*3 + l.GetIndex(v)
+				if l.ContainsValue(v) {
+					n++
+				}
+			}
+			return fmt.Sprint(n % 1000003)
+		}},
+		{"sort-default", func(id int) string {
+			l := col.List[[]int](notation).MakeFromArray(composite(id, 25))
+			l.SortValues()
+			a := col.Array[int](notation).MakeFromArray(scalars(id, 30))
+			a.SortValues()
+			return fmt.Sprint(l.AsArray()) + digestInts(a.AsArray())
+		}},
+		{"sort-sorter", func(id int) string {
+			vs := composite(id, 25)
+			age.Sorter[[]int]().Make().SortValues(vs) // the class's default ranker
+			ws := scalars(id, 30)
+			age.Sorter[int]().Make().SortValues(ws)
+			age.Sorter[int]().Make().ReverseValues(ws)
+			return fmt.Sprint(vs) + digestInts(ws)
+		}},
+		{"rank", func(id int) string {
+			c := age.Collator[any]().Make()
+			vs := composite(id, 10)
+			n := 0
+			for i := range vs {
+				for j := range vs {
+					n = n*3 + int(c.RankValues(vs[i], vs[j])) + 1
+					if c.CompareValues(map[string]any{"a": vs[i]}, map[string]any{"a": vs[j]}) {
+						n++
+					}
+					n %= 1000003
+				}
+			}
+			return fmt.Sprint(n)
+		}},
+		{"format", func(id int) string {
+			l := col.List[int](notation).MakeFromArray(scalars(id, 15))
+			s := col.Set[int](notation).MakeFromArray(scalars(id, 15))
+			nested := col.List[[]int](notation).MakeFromArray(composite(id, 6))
+			out := ""
+			for i := 0; i < 5; i++ {
+				out = fmt.Sprint(l) + fmt.Sprint(s) + fmt.Sprint(nested)
+			}
+			return out
+		}},
+		{"format-notation", func(id int) string {
+			n := cdc.Notation().Make()
+			c := col.Catalog[string, any](n).Make()
+			c.SetValue("k", composite(id, 3))
+			c.SetValue("l", col.List[int](n).MakeFromArray(scalars(id, 5)))
+			return n.FormatValue(c)
+		}},
+		{"parse", func(id int) string {
+			n := cdc.Notation().Make()
+			src := n.FormatValue(col.List[any](n).MakeFromArray([]any{id, "s", 1.5, col.Set[any](n).MakeFromArray([]any{id, id + 1})}))
+			v := n.ParseSource(src)
+			return n.FormatValue(v)
+		}},
+		{"iterate", func(id int) string {
+			l := col.List[int](notation).MakeFromArray(scalars(id, 20))
+			it := l.GetIterator()
+			n := 0
+			for it.HasNext() {
+				n = n*7 + it.GetNext()
+				n %= 1000003
+			}
+			it.ToSlot(-3)
+			for it.HasPrevious() {
+				n = n*5 + it.GetPrevious()
+				n %= 1000003
+			}
+			return fmt.Sprint(n)
+		}},
+		{"set-algebra", func(id int) string {
+			a := col.Set[[]int](notation).MakeFromArray(composite(id, 10))
+			b := col.Set[[]int](notation).MakeFromArray(composite(id+1, 10))
+			c := col.Set[[]int](notation)
+			r := c.Or(c.And(a, b), c.Xor(a, b))
+			return fmt.Sprint(r.AsArray())
+		}},
+	}
+}
+
+// pairs of DIFFERENT instances that are related by a class function: And(a, b) and a
+func relatedSets(id int) (func() string, func() string) {
+	c := col.Set[[]int](notation)
+	a := c.MakeFromArray(composite(id, 12))
+	b := c.MakeFromArray(composite(id+2, 12))
+	r := c.And(a, b) // a different instance
+	f1 := func() string {
+		for _, v := range composite(id+5, 30) {
+			a.AddValue(v)
+			a.RemoveValue(v)
+		}
+		return fmt.Sprint(a.AsArray())
+	}
+	f2 := func() string {
+		for _, v := range composite(id+9, 30) {
+			r.AddValue(v)
+			r.RemoveValue(v)
+		}
+		return fmt.Sprint(r.AsArray())
+	}
+	return f1, f2
+}
+
+func runConcurrently(fs []func() string) (out []string, panics []string) {
+	out = make([]string, len(fs))
+	var wg sync.WaitGroup
+	var mu sync.Mutex
+	start := make(chan struct{})
+	for i, f := range fs {
+		i, f := i, f
+		wg.Add(1)
+		go func() {
+			defer wg.Done()
+			defer func() {
+				if r := recover(); r != nil {
+					mu.Lock()
+					panics = append(panics, trunc(fmt.Sprint(r), 120))
+					mu.Unlock()
+				}
+			}()
+			<-start
+			out[i] = f()
+		}()
+	}
+	close(start)
+	wg.Wait()
+	return
+}
+
+// nestedValue builds [[[...[id]...]]] of the given depth
+func nestedValue(depth, id int) any {
+	var v any = []any{id}
+	for i := 1; i < depth; i++ {
+		v = []any{v, i}
+	}
+	return v
+}
+
+func runC19stress(tier string, seed int64, out *Out) {
+	r := rand.New(rand.NewSource(seed))
+	// first use of deep nesting levels: distinct formatters, collators and parsers reach depths
+	// that nothing in this process has reached before, all at once
+	{
+		const g = 8
+		fs := make([]func() string, g)
+		for k := 0; k < g; k++ {
+			k := k
+			fs[k] = func() string {
+				f := cdc.Formatter().MakeWithMaximum(64)
+				c := age.Collator[any]().MakeWithMaximum(64)
+				text := f.FormatValue(nestedValue(20+3*k, k))
+				eq := c.CompareValues(nestedValue(20+3*k, k), nestedValue(20+3*k, k))
+				return fmt.Sprint(len(text), eq)
+			}
+		}
+		conc, panics := runConcurrently(fs)
+		seq := make([]string, g)
+		for k := range fs {
+			seq[k] = fs[k]()
+		}
+		same := true
+		for k := range seq {
+			if seq[k] != conc[k] {
+				same = false
+			}
+		}
+		out.emit(J{"k": "indep", "pid": "C19", "families": []string{"deep-first-use", "deep-first-use"}, "g": g, "ids": []int{}, "same": same, "panics": panics})
+	}
+	// first use of 48 fresh types, 16 goroutines each: one class per type
+	for ti, fu := range firstUses {
+		const g = 16
+		got := make([][]any, g)
+		var wg sync.WaitGroup
+		start := make(chan struct{})
+		for k := 0; k < g; k++ {
+			k := k
+			wg.Add(1)
+			go func() {
+				defer wg.Done()
+				<-start
+				got[k] = fu(k)
+			}()
+		}
+		close(start)
+		wg.Wait()
+		later := fu(0)
+		distinct := make([]int, len(accessorNames))
+		for a := range accessorNames {
+			seen := map[any]bool{later[a]: true}
+			for k := 0; k < g; k++ {
+				seen[got[k][a]] = true
+			}
+			distinct[a] = len(seen)
+		}
+		out.emit(J{"k": "registry", "pid": "C19", "type": ti, "goroutines": g, "accessors": accessorNames, "distinct": distinct})
+	}
+	fams := families()
+	reps := 3
+	if tier == "thorough" {
+		reps = 25
+	}
+	// every pair of families, on disjoint instances, in 2..16 goroutines
+	for i := range fams {
+		for j := i; j < len(fams); j++ {
+			for _, g := range []int{2, 4, 8, 16} {
+				for rep := 0; rep < reps; rep++ {
+					ids := make([]int, g)
+					fs := make([]func() string, g)
+					names := make([]string, g)
+					seq := make([]string, g)
+					for k := 0; k < g; k++ {
+						ids[k] = r.Intn(1000)
+						f := fams[i]
+						if k%2 == 1 {
+							f = fams[j]
+						}
+						id := ids[k]
+						fs[k] = func() string { return f.run(id) }
+						names[k] = f.name
+					}
+					for k := range fs {
+						seq[k] = fs[k]()
+					}
+					conc, panics := runConcurrently(fs)
+					same := true
+					for k := range seq {
+						if seq[k] != conc[k] {
+							same = false
+						}
+					}
+					first := -1
+					for k := range seq {
+						if seq[k] != conc[k] {
+							first = k
+							break
+						}
+					}
+					line := J{"k": "indep", "pid": "C19", "families": []string{fams[i].name, fams[j].name}, "g": g, "ids": ids, "same": same, "panics": panics}
+					if first >= 0 {
+						line["differs"] = J{"goroutine": first, "family": names[first], "sequential": trunc(seq[first], 300), "concurrent": trunc(conc[first], 300)}
+					}
+					out.emit(line)
+				}
+			}
+		}
+	}
+	// instances related by a class function (the result of And and its first operand)
+	for rep := 0; rep < reps*8; rep++ {
+		id := r.Intn(1000)
+		s1, s2 := relatedSets(id)
+		e1, e2 := s1(), s2()
+		c1, c2 := relatedSets(id)
+		conc, panics := runConcurrently([]func() string{c1, c2})
+		same := conc[0] == e1 && conc[1] == e2
+		out.emit(J{"k": "indep", "pid": "C19", "families": []string{"set-operand", "set-result"}, "g": 2, "ids": []int{id}, "same": same, "panics": panics})
 	}
 }
